@@ -28,7 +28,7 @@ MANIFEST_ENTRY = {
 
 PROP = "C10"
 LEVEL = "proof"
-THEOREMS = ["C10_lr_error_position", "C10_linecol_inverse", "C10_viable_ends_correct"]
+THEOREMS = ["C10_lr_error_position", "C10_linecol_inverse", "C10_viable_ends_correct", "C10_viable_ends_correct_on_decoded_data"]
 META = {
     "rule": "cases = (productive grammar, LR|GLR, LALR|SLR, non-sentence input incl. empty string, trailing layout, "
             "multi-line); non-trivial = rejected input with error position > 0 or at end of input after >= 1 "
